@@ -24,7 +24,11 @@ Unused == << D("MACRO", <<"@unused">>, "", TRUE, "", ""), D("TYPE", <<"@t5", "an
 Projects ==
   [p1 |-> [root |-> DocOf(<<"info", "srv", "tag1", "tag2", "t1", "t3", "e1", "urlAI", "tagged", "rpc">>), inc |-> <<>>],
    p2 |-> [root |-> DocOf(<<"t1", "t2", "urlA", "getB", "mac", "useM">>) \o Unused, inc |-> <<>>],
-   p3 |-> [root |-> DocOf(<<"tag1", "tag2", "t1">>) \o <<IncTok("inc.jst")>> \o BlockTab["urlT"], inc |-> BlockTab["urlA"] \o BlockTab["e1"]]]
+   p3 |-> [root |-> DocOf(<<"tag1", "tag2", "t1">>) \o <<IncTok("inc.jst")>> \o BlockTab["urlT"], inc |-> BlockTab["urlA"] \o BlockTab["e1"]],
+   \* the banned directive has a fault of its own (a second Path parameter): the ban is enforced at the keyword and comes first
+   p4 |-> [root |-> DocOf(<<"t1">>) \o << D("GET", <<"pa", "pb">>, "", FALSE, "", ""), D("RESP", <<"any">>, "", FALSE, "", "200"),
+                                        IncTok("inc.jst"), D("TAG", <<"@g1">>, "", FALSE, "", "") >>,
+           inc |-> << D("URL", <<"pz", "pf">>, "", FALSE, "", ""), D("POST", <<>>, "", FALSE, "", "") >>]]
 
 Init == proj \in DOMAIN Projects /\ banned \in ({{k1, k2} : k1, k2 \in Kinds} \cup (IF Deep THEN {{k1, k2, k3} : k1, k2, k3 \in Kinds} ELSE {}))     \* singletons, pairs (and triples)
 Next == UNCHANGED vars
@@ -39,12 +43,13 @@ SB == IB!RunInc(Content)
 \* scanning order = the order in which IncStep meets the tokens
 Occurs == \E f \in DOMAIN Content : \E x \in 1..Len(Content[f]) :
              Content[f][x].k \in banned /\ (f = "root.jst" \/ \E y \in 1..Len(Content["root.jst"]) : Content["root.jst"][y].t = "I")
-BanRule == IF Occurs THEN SB.res = "err" /\ SB.err.cls = "notallowed"
-                          /\ Content[SB.err.f][SB.err.i].k \in banned
+\* a banned directive that is reached stops the run at its keyword; a fault met earlier in scan order stops it first, as without the ban
+BanRule == IF Occurs THEN SB.res = "err" /\ ( (SB.err.cls = "notallowed" /\ Content[SB.err.f][SB.err.i].k \in banned)
+                                             \/ (S0.res = "err" /\ SB.err = S0.err) )
            ELSE SB = S0
-BaseOK == S0.res = "ok"
+BaseOK == proj # "p4" => S0.res = "ok"
 
 ASSUME PrintT("L " \o ToJson(PoolsJson))
 EmitInv == PrintT("E " \o ToJson([proj |-> proj, banned |-> banned, content |-> Content, occurs |-> Occurs,
-                                  err |-> [f |-> SB.err.f, i |-> SB.err.i, trace |-> SB.err.trace]]))
+                                  err |-> [cls |-> SB.err.cls, f |-> SB.err.f, i |-> SB.err.i, trace |-> SB.err.trace]]))
 =============================================================================
